@@ -138,6 +138,7 @@ func runC07(c *Ctx) {
 	rulePureCapture(c, "pure-capture")
 	// over TCP the true source is the connection the request arrived on: its table entry leaves by age alone (shared with C12)
 	c12Expiry(c, "hop-provenance")
+	c12StampBeforeKey(c, "hop-provenance")
 	c07ViaParamsAccepted(c, "stamp-content")
 	// (5) return path: the response hop prefers received/rport (same rule as C02.4)
 	if hf := c.fn("hop-provenance", hopRespFn); hf != nil {
